@@ -1141,13 +1141,50 @@ class SD:
                         eqs.append((cc[2], ("slice", ndl, None, None)))
                     else:
                         eqs = []
+                elif cc[0] == "call" and cc[1] == ("ext", "all") and len(cc[2]) == 1 and cc[2][0][0] == "comp" and vv:
+                    # all(a == b for a, b in zip(haystack[i:...], needle)): zip stops at the shorter operand, so the
+                    # comparison covers the whole run only if at least len(needle) elements remain after i
+                    comp = cc[2][0]
+                    gens = comp[3]
+                    z = gens[0][1] if len(gens) == 1 else None
+                    if z is not None and z[0] == "call" and z[1] == ("ext", "zip") and len(z[2]) == 2:
+                        hs_, ns_ = z[2]
+                        if ns_ == hay or (ns_[0] == "slice" and ns_[1] == hay):
+                            hs_, ns_ = ns_, hs_
+                        if hs_[0] == "slice" and hs_[1] == hay and ns_ == ndl and hs_[2] is not None:
+                            start = layout.linear(strip_sites(hs_[2]))
+                            if start != layout.linear(strip_sites(rv)):
+                                problems.append(f"zip comparison starts at {show(hs_[2])[:30]} but {show(rv)[:30]} is returned")
+                            # elements available: len(haystack) - i >= len(needle)?  i is a loop variable over range(E)
+                            enough = False
+                            if hs_[3] is not None:
+                                enough = False  # bounded slice still may be short
+                            for el in [x for x in subterms(hs_[2]) if x[0] == "elem"]:
+                                it = strip_sites(el[1])
+                                if it[0] == "call" and it[1] == ("ext", "range") and len(it[2]) == 1:
+                                    bound = layout.linear(it[2][0])
+                                    lh = strip_sites(("call", ("ext", "len"), (hay,), (), None))
+                                    ln_ = strip_sites(n_t)
+                                    # i <= bound-1 ; need len(h) - i >= len(n)  <=  len(h) - (bound-1) >= len(n)
+                                    if bound is not None and bound[0].get(lh, 0) == 1 and bound[0].get(ln_, 0) == -1 and bound[1] <= 1 and len(bound[0]) == 2:
+                                        enough = True
+                            zipeq = True
+                            checked += 1
+                            if not enough:
+                                problems.append("the run is compared with zip(haystack[i:], needle), which stops at the end of the shared array: a run whose "
+                                                "head matches the array's tail is reported as found although it does not fit (partial overlap)")
+                            eqs.append(("zip", None))
             if not eqs:
                 # no comparison executed: only possible when the comparison loop ran zero times,
                 # i.e. for an empty run (every index is an occurrence of the empty sequence)
                 continue
+            if all(h == "zip" for h, _ in eqs):
+                continue
             checked += 1
             R = layout.linear(strip_sites(rv))
             for hs, ns in eqs:
+                if hs == "zip":
+                    continue
                 if hs[0] == "slice":
                     lo = layout.linear(strip_sites(hs[2])) if hs[2] is not None else ({}, 0)
                     hi = layout.linear(strip_sites(hs[3])) if hs[3] is not None else None
@@ -1172,7 +1209,7 @@ class SD:
             # the comparison loop must cover range(len(needle)): the loop variable is the elem atom of
             # the needle index
             for hs, ns in eqs:
-                if ns[0] != "item":
+                if hs == "zip" or ns is None or ns[0] != "item":
                     continue
                 B0 = layout.linear(ns[2])
                 loopvars = [a for a in (B0[0] if B0 else {}) if a[0] == "elem"]
@@ -1189,6 +1226,8 @@ class SD:
                     lin_n = strip_sites(n_t)
                     if not (B0[0][loopvars[0]] == -1 and B0[0].get(lin_n, 0) == 1 and c0 == -1):
                         problems.append(f"needle index {show(ns[2])[:40]} does not enumerate the run's positions exactly once")
+        if not problems and checked == 0:
+            raise AnalysisError(f"{fi.qual}: the search helper has a shape the occurrence certificate does not recognise")
         run.ob(rule, f"{fi.qual}:reported-index-is-an-occurrence", not problems and checked > 0, loc(fi),
                "; ".join(dict.fromkeys(problems)) or
                f"every returned index r satisfies haystack[r+k] == needle[k] for all k (checked on {checked} returning path shapes as a linear identity)")
